@@ -57,7 +57,26 @@ func (w *world) answerNode(addr string, n int) {
 	}
 }
 
+// a key of client c, request n, ending in the marker, that hashes to slot 0 (slot 0 is an ordinary slot)
+func slotZeroKey(c, n int, sfx string) []byte {
+	for j := 0; ; j++ {
+		k := "c" + strconv.Itoa(c) + "r" + strconv.Itoa(n) + "z" + strconv.Itoa(j) + sfx
+		if hashkit.Hash(k) == 0 {
+			return []byte(k)
+		}
+	}
+}
+
 var scripts = []script{
+	{name: "redirects-for-slot-zero", run: func(w *world) {
+		n0, n1 := w.cfg.nodes[0], w.cfg.nodes[1]
+		w.clientData(0, sreq([]byte("get"), slotZeroKey(0, 1, "mov")))
+		w.clientData(1, sreq([]byte("get"), slotZeroKey(1, 1, "ask")))
+		w.runTasks()
+		w.answerNode(n0, 2) // -MOVED 0 node1, -ASK 0 node1
+		w.runTasks()
+		w.answerNode(n1, 5)
+	}},
 	{name: "redirect-then-timeout", timeout: true, run: func(w *world) {
 		n0, n1 := w.cfg.nodes[0], w.cfg.nodes[1]
 		w.clientData(0, sreq([]byte("get"), skey(0, 1, "mov", true)))
